@@ -10,6 +10,7 @@ from ..core import hx, time_limit, Stalled
 from ..ref import armor, wire
 from .. import pool
 
+W0_COUNTER = 'C10_armored_texts'   # thorough tier: the repository's own tests run under this property's always-on monitor
 LEVEL = 'exploration'
 RULE = ('case = (object kind, payload size/pattern, headers, line ending, input type) or (block, corrupted position range); one evaluation per '
         'armored text decoded by the reference or per corrupted text loaded; non-trivial = payload longer than one armor line, or headers '
